@@ -103,9 +103,16 @@ func exec1(op string) string {
 	if len(toksIn) < 1 || !strings.HasPrefix(toksIn[0], "cfg") {
 		return "bad-op"
 	}
-	isw, err := strconv.Atoi(toksIn[0][3:])
+	cfgParts := strings.Split(toksIn[0][3:], "/")
+	isw, err := strconv.Atoi(cfgParts[0])
 	if err != nil {
 		return "bad-op"
+	}
+	chunk := 0
+	if len(cfgParts) == 2 {
+		if chunk, err = strconv.Atoi(cfgParts[1]); err != nil {
+			return "bad-op"
+		}
 	}
 	hs := &handlers{m: map[uint32]chan cmd{}, reqs: map[uint32]*http.Request{}, quit: make(chan struct{}), reg: make(chan uint32, 16)}
 	defer close(hs.quit)
@@ -113,6 +120,7 @@ func exec1(op string) string {
 		return bfe_http2.VerifC33Serve(c, hs, &bfe_http2.Server{MaxUploadBufferPerStream: uint32(isw)})
 	})
 	defer cl.Close()
+	cl.Chunk(chunk)
 	if !cl.Send(h2c33.Preface()) || !cl.Sync() {
 		return "no-preface"
 	}
@@ -192,6 +200,14 @@ func exec1(op string) string {
 				finish("", nil)
 				break
 			}
+			finish("", nil)
+		case t[0] == 'S' && len(a) == 1:
+			cl.Send(h2c33.Settings(4, uint32(a[0])))
+			cl.Sync()
+			finish("", nil)
+		case t[0] == 'U' && len(a) == 2:
+			cl.Send(h2c33.WindowUpdate(uint32(a[0]), uint32(a[1])))
+			cl.Sync()
 			finish("", nil)
 		case t[0] == 'R' && len(a) == 2:
 			ch := handler(uint32(a[0]))
@@ -334,6 +350,9 @@ func gen(r *vh.Rand) string {
 		isw = 65535
 	}
 	ops := []string{fmt.Sprintf("cfg%d", iswCfg)}
+	if r.Chance(1, 6) {
+		ops[0] += fmt.Sprintf("/%d", []int{1, 2, 5, 8, 9, 10, 4096}[r.Intn(7)])
+	}
 	add := func(f string, a ...interface{}) { ops = append(ops, fmt.Sprintf(f, a...)) }
 	conn := 65535
 	var sts []*gst
@@ -540,7 +559,7 @@ func gen(r *vh.Rand) string {
 			}
 			add("T%d:%d", s.id, pickInt(r, 8, 0, 2))
 			s.open, s.live = false, false
-		case k < 97:
+		case k < 96:
 			s := pick(func(s *gst) bool { return !s.open })
 			if s == nil {
 				continue
@@ -557,8 +576,36 @@ func gen(r *vh.Rand) string {
 			if s.live {
 				s.live = false
 			}
-		default:
+		case k < 98:
 			add("R%d:%d", 99, 5)
+		default:
+			// frames that only concern the server's SEND windows must not touch the receive side
+			if r.Bool() {
+				add("S%d", pickInt(r, 0, 1, 100, 65535, 1000000)) // small enough that the WINDOW_UPDATEs below cannot overflow a send window
+			} else {
+				id := 0
+				if s := pick(func(s *gst) bool { return s.live }); s != nil && r.Bool() {
+					id = s.id
+				}
+				add("U%d:%d", id, r.Range(1, 1000))
+			}
+		}
+		// many small reads (a server that batched WINDOW_UPDATEs below a threshold would not re-open the windows)
+		if r.Chance(1, 25) {
+			if s := pick(func(s *gst) bool { return s.handler && s.live && s.buf > 40 }); s != nil {
+				for j := r.Range(10, 40); j > 0 && s.buf > 0; j-- {
+					m := r.Range(1, 7)
+					if m > s.buf {
+						m = s.buf
+					}
+					add("R%d:%d", s.id, m)
+					s.buf -= m
+					conn += m
+					if s.open {
+						s.win += m
+					}
+				}
+			}
 		}
 	}
 	if r.Chance(4, 5) {
